@@ -94,6 +94,22 @@ Theorem C06_typevar_argument_accepted_by_solution :
 Proof. exact @typevar_argument_accepted_by_solution. Qed.
 Print Assumptions C06_typevar_argument_accepted_by_solution.
 
+(* ... and the same through the generic forms: the element type of a list[T_k] argument, the
+   key / value types of a dict[T_k, T_j] argument and the result type of a Callable[.., T_j]
+   argument are accepted by the values chosen.  The second pass can therefore only fail on
+   concretely typed parameters and on a callback's parameter type (the upper-bound position) *)
+Theorem C06_generic_lower_positions_accepted :
+  forall (V : Type) (O : ops V) limit, acc_laws O ->
+  forall s (b : list (@cparam V * @barg V)) l p,
+  pass1 O limit s b = inr l -> resolve_ok O limit l = true ->
+  (forall k e, In (p, BVals [AList e]) b -> ann p = AnnList k -> acc O (sol_of O limit l k) e = true) /\
+  (forall k j kk vv, In (p, BVals [ADict kk vv]) b -> ann p = AnnDict k j ->
+      acc O (sol_of O limit l k) kk = true /\ acc O (sol_of O limit l j) vv = true) /\
+  (forall k j pv qv, In (p, BVals [AFun pv qv]) b -> ann p = AnnFun k (RVar j) ->
+      acc O (sol_of O limit l j) qv = true).
+Proof. exact @generic_lower_positions_accepted. Qed.
+Print Assumptions C06_generic_lower_positions_accepted.
+
 (* result type: for `-> T_k` the inferred type contains every literal passed for a
    parameter annotated T_k (in particular the one an identity-like body returns) *)
 Theorem C06_identity_result_member :
